@@ -27,6 +27,7 @@ CHECKS = {
  'C08': dict(ref='§4 C08', note=BASE + 'Repository::save_target runs from MIR for both Prefix modes, names that do / do not need resolution, and a scripted verified stream of 0..2 (quick) / 0..3 (thorough) items each Ok(bytes) or Err; whether parent(outdir.join(name)) starts with outdir is an uninterpreted predicate of the file-name variant (Path::join/parent/starts_with are lexical in std); NamedTempFile::new_in / persist / drop follow the tempfile contract (create in dir, rename(2), unlink on drop). Obligations: no fs effect before the containment check passes, bytes only go to the temp file, rename only after the stream ended Ok, temp file gone on every error path, nothing outside outdir. A native sweep (real files, hostile names, failing streams) validates the model.'),
  'C16': dict(ref='§4 C16', note='Trusted base: percent_encoding::utf8_percent_encode escapes exactly the bytes of the AsciiSet plus non-ASCII (the set itself is evaluated from the const initialiser in the MIR of the current tree); encode_filename and its call sites (datastore names, cache file names, target file names, role URLs) run from MIR; injectivity and path-safety are solver queries over symbolic bytes (names of <=4 bytes; longer names follow by the byte-wise definition, stated as outside the solver claim); native sweep over all 1- and 2-byte names and a hostile menu compares against a reference encoder and against the real file system.'),
  'C17': dict(ref='§4 C17', note='Trusted base: SignedRole::new(role, ..) either fails or wraps exactly `role`; SignedRole::from_signed wraps exactly its argument; Clone is deep; HashMap::extend/insert overwrite, unwrap_or_default is the empty map; Targets::validate may accept or refuse (C07); RepositoryEditor::new yields an editor with every optional field unset. RepositoryEditor::{from_repo, targets, snapshot, timestamp, *_version, *_expires, add_target, sign, sign_targets_editor, build_snapshot, build_timestamp, snapshot_meta, timestamp_meta}, TargetsEditor::{from_targets, version, expires, add_target, create_signed, build_targets}, Targets::signed_delegated_targets and Signed::delegated_targets/targets run from MIR as one chain. Target maps and unknown-member maps are arbitrary functions (any size); loaded delegation trees: none / nested (quick) plus flat and depth-3 (thorough); 0..1 (quick) / 0..2 (thorough) added targets with symbolic names. A native sweep (18 repositories per seed: extras, custom data, thresholds 2-of-3, odd role names, both consistent-snapshot settings, +0/+1/+3 targets) is the replay of every counterexample class.'),
+ 'C10': dict(ref='§4 C10', note='Solver part (MIR): (1) the chain from_repo -> setters -> add_target -> sign -> SignedRepository::write on the C17 repository shapes: snapshot.meta lists exactly targets.json and the delegated role files that are written, each entry carries the SHA-256/length/version of the very buffer written for that role, timestamp.meta likewise for snapshot.json, every buffer is written once under the name the client derives from the parent meta (N.name only with consistent snapshots), nothing else is written; (2) SignedRole::from_signed: buffer = pretty serialisation + newline, length and SHA-256 are those of that buffer; (3) SignedRole::new for each role type with 0..2 (quick) / 0..3 (thorough) usable keys and 1..2/3 listed key ids: signatures only by listed keys over the canonical form, success => threshold met (except root), refusal only when it is not. Trusted base: serde/crypto/fs contracts listed in the evidence; encode_filename is C16; Targets::validate is C07. The cross-party flow (update_delegated_targets / add_role) and TargetsWalker::target_path are covered only by the native sweep in this revision: random editing programs (<= 25 operations, delegation depth <= 3, thresholds 1..3 with mixed Ed25519/ECDSA/RSA keys, names with spaces/unicode/sub-directories, both consistent-snapshot settings, copy and symlink publication, adequate and inadequate signing key sets) run against the real editor and client with a reference model of the program; it is also the replay of the solver counterexamples. One recorded known finding (file transport vs percent-encoded target names).'),
 }
 
 NA = {
